@@ -8,7 +8,7 @@ claimed = {
    note="Trusted: catch_unwind attribution of panics to library code (harness panics exit 2); the step budget 8*len+8*eintr+1000 source calls is generous for any reader that consumes at least one byte per non-EOF fill; hangs that never touch the stream are caught only by a 120 s watchdog.", ref="DESIGN.md section 4 C15"),
 
  "C02": dict(engine="scan", level="exploration", technique="deterministic simulation: seeded search over worlds (simulated host CPU, block-size knob, allocator policy, caller program) against a brute-force score table",
-   text="Seeded deterministic simulation of lightmotif::scan::Scanner in a simulated world: host CPU profile (generic / sse2 / avx2 through the verif-hooks override), block size relative to the sequence rows and wrap rows, allocator policy, spare look-ahead rows, and a caller program (k next() calls, then drain / max / drop). Invariants after every next(): position in range, exactly once, exact score, >= threshold; at exhaustion every position of the brute-force table at or above the threshold was returned; None within (L-M+1)+2 calls; no panic. The thorough tier additionally enumerates every block size 1..R+W+2 for 200 fixed worlds.",
+   text="Seeded deterministic simulation of lightmotif::scan::Scanner in a simulated world: host CPU profile (generic / sse2 / avx2 through the verif-hooks override), block size relative to the sequence rows and wrap rows, allocator policy, spare look-ahead rows, and a caller program (k next() calls, then drain / max / drop). Invariants after every next(): position in range, exactly once, exact score, >= threshold; at exhaustion every position of the brute-force table at or above the threshold was returned; None within (L-M+1)+2 calls; no panic. The thorough tier additionally enumerates every block size 1..R+W+2 for 200 fixed worlds. A Python tier (embedded CPython) drives lightmotif.scan(pssm, sequence, threshold=, block_size=) over the same worlds to exhaustion.",
    note="Trusted: the brute-force f32 left-to-right score table computed by the harness from the matrix values the library holds; matrices stay in contract (finite non-wildcard entries, wildcard column -inf or <= row minimum). Weaker adversary than a stream or RNG seam (no fault in the narrow sense): the failures it targets are environment-triggered (host CPU, block boundaries).", ref="DESIGN.md section 4 C02"),
  "C03": dict(engine="scan", level="exploration", technique="deterministic simulation: seeded search over worlds and next()/max() interleavings against a brute-force score table",
    text="Same worlds as C02; the caller program is k next() calls followed by max(). Oracle: with U = expected hits not yet returned, max() is None iff U is empty, otherwise the returned position is in range, not already consumed, carries its exact score, meets the threshold and equals the maximum over U (ties: any maximal position). Generators plant consensus and near-consensus words so that several positions have near-equal scores that 8-bit rounding reorders.",
@@ -72,7 +72,7 @@ m={
           "baseline_off_cmd":"cd /repo && cargo test --workspace --no-fail-fast --offline",
           "source_commits":["ca8be19"],
           "add_only":True},
- "engines":[{"name":"pyview","path":"/verif/pysim/src/pyview.rs","serves_properties":["C18"],"kind_free_text":"embedded CPython driving the lightmotif extension module; object histories x allocator policies; logical-content model of every view and index"},{"name":"stripe","path":"/verif/sim/src/sims/stripe.rs","serves_properties":["C04"],"kind_free_text":"deterministic simulation of a long-lived striped sequence buffer: operation histories x host CPU x allocator"},{"name":"mem","path":"/verif/sim/src/sims/mem.rs","serves_properties":["C06"],"kind_free_text":"all workloads under guard-page / poison allocators; traps attributed to the run in flight"},{"name":"gibbs","path":"/verif/sim/src/sims/gibbs.rs","serves_properties":["C16"],"kind_free_text":"deterministic simulation of the Gibbs sampler behind an RNG seam with forced draws"},{"name":"dense","path":"/verif/sim/src/sims/dense.rs","serves_properties":["C19"],"kind_free_text":"deterministic simulation of DenseMatrix operation histories under an adversarial allocator"},{"name":"scan","path":"/verif/sim/src/sims/scan.rs","serves_properties":["C02","C03"],"kind_free_text":"deterministic simulation of the block scanner in a simulated world: host CPU profile, block-size knob, allocator policy, caller program"},{"name":"stream","path":"/verif/sim/src/sims/stream","serves_properties":["C14","C15"],"kind_free_text":"deterministic simulation of the motif-file readers over a simulated byte source (chunk schedules, EINTR, truncation, corruption, hard I/O errors)"}],
+ "engines":[{"name":"pystream","path":"/verif/pysim/src/pystream.rs","serves_properties":["C14","C15"],"kind_free_text":"Python tier of the stream simulator: lightmotif.load() fed by a Python file object with short reads, EINTR and failures"},{"name":"pyscan","path":"/verif/pysim/src/pyscan.rs","serves_properties":["C02"],"kind_free_text":"Python tier of the scan simulator: lightmotif.scan() iterated to exhaustion on simulated host CPUs"},{"name":"pyview","path":"/verif/pysim/src/pyview.rs","serves_properties":["C18"],"kind_free_text":"embedded CPython driving the lightmotif extension module; object histories x allocator policies; logical-content model of every view and index"},{"name":"stripe","path":"/verif/sim/src/sims/stripe.rs","serves_properties":["C04"],"kind_free_text":"deterministic simulation of a long-lived striped sequence buffer: operation histories x host CPU x allocator"},{"name":"mem","path":"/verif/sim/src/sims/mem.rs","serves_properties":["C06"],"kind_free_text":"all workloads under guard-page / poison allocators; traps attributed to the run in flight"},{"name":"gibbs","path":"/verif/sim/src/sims/gibbs.rs","serves_properties":["C16"],"kind_free_text":"deterministic simulation of the Gibbs sampler behind an RNG seam with forced draws"},{"name":"dense","path":"/verif/sim/src/sims/dense.rs","serves_properties":["C19"],"kind_free_text":"deterministic simulation of DenseMatrix operation histories under an adversarial allocator"},{"name":"scan","path":"/verif/sim/src/sims/scan.rs","serves_properties":["C02","C03"],"kind_free_text":"deterministic simulation of the block scanner in a simulated world: host CPU profile, block-size knob, allocator policy, caller program"},{"name":"stream","path":"/verif/sim/src/sims/stream","serves_properties":["C14","C15"],"kind_free_text":"deterministic simulation of the motif-file readers over a simulated byte source (chunk schedules, EINTR, truncation, corruption, hard I/O errors)"}],
  "checks":checks,
  "not_applicable":nas,
  "notes":"Deterministic simulation with fault injection; see DESIGN.md. Exit codes: 0 held, 1 VIOLATION, 2 harness error. Genuine defects found and repaired are listed in KNOWN_FINDINGS.txt (fixed: lines).",
